@@ -402,6 +402,80 @@ func (m *Machine) unifyOC(a, b *T) bool {
 	return term.Equal(a, b)
 }
 
+// sto reports whether the unification problem given by pairs is subject to occurs check in the
+// order-independent sense of ISO 7.3.3: SOME order of unification steps creates a cyclic binding. It runs
+// the unification to the end without stopping at clashes (an over-approximation, which is the safe side: such
+// cases are not asserted). The machine's bindings are not touched.
+func (m *Machine) sto(pairs [][2]*T) bool {
+	local := map[int64]*T{}
+	walk := func(t *T) *T {
+		for t.K == term.KVar {
+			if b, ok := local[t.I]; ok {
+				t = b
+			} else if b, ok := m.bind[t.I]; ok {
+				t = b
+			} else {
+				return t
+			}
+		}
+		return t
+	}
+	budget := 20000
+	var occurs func(id int64, t *T) bool
+	occurs = func(id int64, t *T) bool {
+		t = walk(t)
+		budget--
+		if budget < 0 {
+			return true
+		}
+		switch t.K {
+		case term.KVar:
+			return t.I == id
+		case term.KCmp:
+			for _, a := range t.Args {
+				if occurs(id, a) {
+					return true
+				}
+			}
+		}
+		return false
+	}
+	for len(pairs) > 0 {
+		a, b := walk(pairs[len(pairs)-1][0]), walk(pairs[len(pairs)-1][1])
+		pairs = pairs[:len(pairs)-1]
+		if a.K == term.KVar && b.K == term.KVar && a.I == b.I {
+			continue
+		}
+		if a.K != term.KVar && b.K == term.KVar {
+			a, b = b, a
+		}
+		if a.K == term.KVar {
+			if b.K == term.KCmp && occurs(a.I, b) {
+				return true
+			}
+			local[a.I] = b
+			continue
+		}
+		if a.K == term.KCmp && b.K == term.KCmp && a.S == b.S && len(a.Args) == len(b.Args) {
+			for i := range a.Args {
+				pairs = append(pairs, [2]*T{a.Args[i], b.Args[i]})
+			}
+		}
+		if budget < 0 {
+			return true
+		}
+	}
+	return false
+}
+
+// noteSTO marks the run as not assertable when a unification problem is subject to occurs check.
+func (m *Machine) noteSTO(pairs [][2]*T) {
+	if m.Unsupported == "" && m.sto(pairs) {
+		m.Unsupported = "STO unification"
+		m.OutOfBudget = true
+	}
+}
+
 // rename makes a copy of t with fresh variables (t is resolved first).
 func (m *Machine) rename(t *T, mp map[int64]*T) *T {
 	t = m.Resolve(t)
